@@ -377,7 +377,7 @@ def _tie_a_one(script):
     return res, st, out[-1500:]
 
 
-KERN_THEOREMS = {'kernel_dense_eq', 'kernel_sparse_eq', 'kernel_dispatch_eq'}
+KERN_THEOREMS = {'kernel_dense_eq', 'kernel_sparse_eq', 'kernel_dispatch_eq', 'kernel_leftmat_eq', 'kernel_rightmat_eq', 'kernel_lainv_eq'}
 
 LAY_THEOREMS = {'lay_complement_eq', 'lay_vee_eq', 'lay_dual_eq', 'lay_involutions_eq'}
 
